@@ -8,6 +8,7 @@ import (
 	"regexp"
 	"sort"
 	"strconv"
+	"strings"
 	"testing"
 
 	"golang.org/x/perf/benchmath"
@@ -27,6 +28,9 @@ type Case struct {
 	Assume      string // "nothing" | "exact" | "normal"
 	Shuffle     []int  // drives a reordering of the samples
 	ScaleExp    int    // common rescaling by 2^ScaleExp
+	// Range, if it has three elements, holds the bit patterns of lo <= centre <= hi of a summary
+	// whose rendered range is compared with the documented rule (any magnitude, ends may be infinite)
+	Range []uint64
 }
 
 func assumption(name string) benchmath.Assumption {
@@ -359,6 +363,18 @@ func Check(c Case) (v vcase.Verdict) {
 		return
 	}
 	v.Label("assume=" + c.Assume)
+	if len(c.Range) == 3 {
+		lo, ce, hi := math.Float64frombits(c.Range[0]), math.Float64frombits(c.Range[1]), math.Float64frombits(c.Range[2])
+		if lo <= ce && ce <= hi && !math.IsInf(ce, 0) {
+			sum := benchmath.Summary{Center: ce, Lo: lo, Hi: hi, Confidence: c.Confidence}
+			want := refRange(ce, lo, hi)
+			if got := sum.PctRangeString(); got != want {
+				v.Failf("PctRangeString for center %v [%v,%v] = %q, documented rule gives %q", ce, lo, hi, got, want)
+				return
+			}
+			v.Label("range_of_given_summary=" + map[bool]string{true: "percent", false: want}[strings.HasSuffix(want, "%") && want != "0%"])
+		}
+	}
 	a := assumption(c.Assume)
 	th := &benchmath.Thresholds{CompareAlpha: c.Alpha}
 	checkSummary(&v, c, c.X1)
@@ -638,6 +654,25 @@ func Gen(t *rapid.T) Case {
 	c.Assume = rapid.SampledFrom([]string{"nothing", "nothing", "exact", "normal"}).Draw(t, "assume")
 	c.Shuffle = rapid.SliceOfN(rapid.IntRange(0, 1000), 6, 6).Draw(t, "shuffle")
 	c.ScaleExp = rapid.SampledFrom([]int{0, 1, -3, 10, -20, 40}).Draw(t, "scale")
+	if vcase.OneIn(t, 3, "range") {
+		pool := []float64{0, 1, -1, 1.5e308, -1.5e308, 1e308, -1e308, 9e307, -9e307, math.MaxFloat64, -math.MaxFloat64, 5e-324, -5e-324, 1e-310, -1e-310, 2.5, 100, -100, math.Inf(1), math.Inf(-1), 1e-300, -1e-300}
+		var xs []float64
+		for i := 0; i < 3; i++ {
+			if rapid.Bool().Draw(t, "rangepool") {
+				xs = append(xs, rapid.SampledFrom(pool).Draw(t, "rangev"))
+			} else {
+				xs = append(xs, math.Float64frombits(rapid.Uint64().Draw(t, "rangebits")))
+			}
+		}
+		ok := true
+		for _, x := range xs {
+			ok = ok && x == x
+		}
+		if ok {
+			sort.Float64s(xs)
+			c.Range = []uint64{math.Float64bits(xs[0]), math.Float64bits(xs[1]), math.Float64bits(xs[2])}
+		}
+	}
 	return c
 }
 
